@@ -5,6 +5,7 @@ package bed
 //
 // Mapping of API functions to clauses:
 //   func (*BED) Write, (*BED) MarshalText, bed.Reader   -> C04/roundtrip, C04/file
+//   func (*BED) MarshalText x n, then (*BED) Write x n, bed.Reader -> C04/marshal-list {records}
 //   func bed.Reader (read schedules)                    -> C06/chunking, C06/crlf
 //   func bed.File                                       -> C06/file
 //   func bed.Reader (failing io.Reader)                 -> C07/read-fault
@@ -16,11 +17,16 @@ package bed
 // decimal strings. A record is
 //   {"n":N,"chrom":[..],"start":n,"end":n,"name":[..],"score":n,"strand":[..],"thickstart":n,
 //    "thickend":n,"rgb":[r,g,b],"blockcount":n,"blocksizes":[..],"blockstarts":[..]}
+// Compact form of a long byte string (accepted for chrom and name):
+//   {"pat":[..],"len":n} = pat repeated and cut to n bytes.
 //
 // Signatures: "bed:dquote-in-text-field" (a '"' in chrom/name is needed for the
 // failure: the same case with every '"' replaced by 'q' passes),
 // "bed:File-yields-nothing" (C06/file: File yields no item although Reader
-// yields at least one), "generic" otherwise.
+// yields at least one), "bed:line-longer-than-4095" / "bed:line-longer-than-65535"
+// (C04: the failure needs a line of that length: the same case with chrom/name
+// cut to 256 bytes passes; the second one if it also passes with them cut to
+// 16000 bytes), "generic" otherwise.
 
 import (
 	"bytes"
@@ -32,6 +38,7 @@ import (
 	"math/rand"
 	"os"
 	"path/filepath"
+	"sort"
 	"strconv"
 	"strings"
 	"testing"
@@ -41,13 +48,17 @@ func TestVerif(t *testing.T) { vrMain(t, vbClauses) }
 
 var vbClauses = []vrClause{
 	{Prop: "C04", Name: "roundtrip",
-		Bound: "systematic: every N in -1..14 and extreme N; for every N in 3..12 chrom (not starting with '#') and name over all words of length <=2 over {dquote,space,comma,0x01,0x80,a,#,:}, every int field over extreme values, every strand, RGB corners, block lists of 0..3; then random records until the time budget",
+		Bound: "systematic: every N in -1..14 and extreme N; for every N in 3..12 chrom (not starting with '#') and name over all words of length <=2 over {dquote,space,comma,0x01,0x80,a,#,:}, every int field over extreme values, every strand, RGB corners, block lists of 0..3; long lines (Name with N = 4 and 12, Chrom with N = 3, of 4000, 4096, 5000, 70000, 200000 bytes); then random records until the time budget",
 		Rule:  "N in 3..12: Write ok, MarshalText == Write, one line of exactly N tab-separated fields, Reader gives back N and the first N fields, rest zero; otherwise Write/MarshalText refuse and emit nothing",
 		Gen:   vbGenRoundtrip, Run: vbRunRoundtrip},
 	{Prop: "C04", Name: "file",
-		Bound: "random files of 0..5 records sharing one N (every N in 3..12) until the time budget",
+		Bound: "fixed files for every N in 3..12 (one record; an all-zero record between two records); long lines: a record with a Name of 4000, 4096, 5000, 70000, 200000 bytes (N = 4, 6, 12) alone, twice, and between ordinary records, and a Chrom of those lengths (N = 3) between ordinary records; then random files of 0..5 records sharing one N (every N in 3..12) until the time budget",
 		Rule:  "Reader gives back the records in order",
 		Gen:   vbGenFile, Run: vbRunFile},
+	{Prop: "C04", Name: "marshal-list",
+		Bound: "exhaustive: for every N in 3..12 all ordered pairs of a pool of 8 records of pairwise different written lengths (empty / long text, extreme ints, 0..3 blocks); all ordered pairs (N1,N2) of base records with different N (byte checks only); the N=12 pool in increasing and decreasing length order (windows of 6); then random lists of 2..6 random records of pairwise different written lengths (3/4 sharing one N) until the time budget",
+		Rule:  "every N in 3..12: MarshalText is called on every record of the list first and the returned slices are kept untouched; afterwards each kept slice == the bytes Write of that record puts into a fresh buffer (not clobbered by later MarshalText/Write calls); Write of all records into one shared buffer emits the concatenation of those bytes; if the records share one N, Reader over the kept slices joined and over the shared buffer gives back the records (first N fields) in order",
+		Gen:   vbGenMarshalList, Run: vbRunMarshalList},
 	{Prop: "C06", Name: "chunking",
 		Bound: "random well-formed / near-valid / random inputs x {every 2-chunk split, uniform chunk sizes 1..8, random schedules} x eof_with_data",
 		Rule:  "items of Reader on the chunked stream == items on bytes.Reader",
@@ -88,6 +99,46 @@ func vbAnyStr(v any) string {
 	return vrStr(v)
 }
 
+// vbStr decodes a byte string: the usual forms of vrStr, or the compact form
+// {"pat":[bytes],"len":n} (pat repeated and cut to n bytes).
+func vbStr(v any) string {
+	m, ok := v.(map[string]any)
+	if !ok {
+		return vrStr(v)
+	}
+	pat, n := vrBytes(m["pat"]), vrInt(m["len"])
+	if n < 0 || (n > 0 && len(pat) == 0) || n > 1<<26 {
+		panic("harness: bad compact string")
+	}
+	b := make([]byte, n)
+	for i := range b {
+		b[i] = pat[i%len(pat)]
+	}
+	return string(b)
+}
+
+// vbS encodes a byte string; strings of 512 bytes or more that are a repeated
+// pattern of at most 16 bytes get the compact form, so that case files stay small.
+func vbS(x string) any {
+	if len(x) >= 512 {
+	next:
+		for p := 1; p <= 16; p++ {
+			for i := p; i < len(x); i++ {
+				if x[i] != x[i-p] {
+					continue next
+				}
+			}
+			return map[string]any{"pat": vrS(x[:p]), "len": len(x)}
+		}
+	}
+	return vrS(x)
+}
+
+// vbRep returns pat repeated and cut to n bytes.
+func vbRep(pat string, n int) string {
+	return vbStr(map[string]any{"pat": pat, "len": n})
+}
+
 func vbEncInt(v int) any {
 	if v > 1<<53 || v < -(1<<53) {
 		return strconv.Itoa(v)
@@ -105,8 +156,8 @@ func vbEncInts(a []int) []any {
 
 func vbEncRec(b *BED) map[string]any {
 	return map[string]any{
-		"n": vbEncInt(b.N), "chrom": vrS(b.Chrom), "start": vbEncInt(b.ChromStart), "end": vbEncInt(b.ChromEnd),
-		"name": vrS(b.Name), "score": vbEncInt(b.Score), "strand": vrS(b.Strand),
+		"n": vbEncInt(b.N), "chrom": vbS(b.Chrom), "start": vbEncInt(b.ChromStart), "end": vbEncInt(b.ChromEnd),
+		"name": vbS(b.Name), "score": vbEncInt(b.Score), "strand": vrS(b.Strand),
 		"thickstart": vbEncInt(b.ThickStart), "thickend": vbEncInt(b.ThickEnd),
 		"rgb":        []any{int(b.ItemRGB[0]), int(b.ItemRGB[1]), int(b.ItemRGB[2])},
 		"blockcount": vbEncInt(b.BlockCount), "blocksizes": vbEncInts(b.BlockSizes), "blockstarts": vbEncInts(b.BlockStarts),
@@ -115,8 +166,8 @@ func vbEncRec(b *BED) map[string]any {
 
 func vbDecRec(v any) *BED {
 	m := vrMap(v)
-	b := &BED{N: vrInt(m["n"]), Chrom: vrStr(m["chrom"]), ChromStart: vrInt(m["start"]), ChromEnd: vrInt(m["end"]),
-		Name: vrStr(m["name"]), Score: vrInt(m["score"]), Strand: vrStr(m["strand"]),
+	b := &BED{N: vrInt(m["n"]), Chrom: vbStr(m["chrom"]), ChromStart: vrInt(m["start"]), ChromEnd: vrInt(m["end"]),
+		Name: vbStr(m["name"]), Score: vrInt(m["score"]), Strand: vrStr(m["strand"]),
 		ThickStart: vrInt(m["thickstart"]), ThickEnd: vrInt(m["thickend"]),
 		BlockCount: vrInt(m["blockcount"]), BlockSizes: vrInts(m["blocksizes"]), BlockStarts: vrInts(m["blockstarts"])}
 	for i, x := range vrInts(m["rgb"]) {
@@ -185,6 +236,48 @@ func vbDequote(b *BED) *BED {
 	c.Name = strings.ReplaceAll(c.Name, `"`, "q")
 	return &c
 }
+
+// vbCut returns copies of recs with chrom and name cut to at most n bytes
+// (changed reports whether anything was cut).
+func vbCut(recs []*BED, n int) (r []*BED, changed bool) {
+	r = make([]*BED, len(recs))
+	for i, b := range recs {
+		c := *b
+		if len(c.Chrom) > n {
+			c.Chrom, changed = c.Chrom[:n], true
+		}
+		if len(c.Name) > n {
+			c.Name, changed = c.Name[:n], true
+		}
+		r[i] = &c
+	}
+	return r, changed
+}
+
+// vbLongLineSig classifies a failure of recs: if some rendered line has 4096
+// bytes or more and the same case with chrom/name cut to 256 bytes passes, the
+// failure needs the long line ("" otherwise). check evaluates the clause's oracle.
+func vbLongLineSig(recs []*BED, check func([]*BED) bool) string {
+	long := false
+	for _, ln := range bytes.Split(vbRenderRecs(recs), []byte{'\n'}) {
+		long = long || len(ln) >= 4096
+	}
+	if !long {
+		return ""
+	}
+	short, changed := vbCut(recs, 256)
+	if !changed || !check(short) {
+		return ""
+	}
+	if mid, ch := vbCut(recs, 16000); ch && check(mid) {
+		return "bed:line-longer-than-65535"
+	}
+	return "bed:line-longer-than-4095"
+}
+
+// vbLongLens: lengths of the long Name / Chrom strings (around the 4096-byte
+// bufio buffer and beyond the 65536-byte bufio.Scanner token limit).
+var vbLongLens = []int{4000, 4096, 5000, 70000, 200000}
 
 func vbIntsEq(a, b []int) bool {
 	if len(a) != len(b) {
@@ -557,6 +650,17 @@ func vbGenRoundtrip(g *vrGen) {
 			emit(b)
 		}
 	}
+	// long lines: Name (N = 4 and 12) or Chrom (N = 3) of 4000..200000 bytes
+	for _, n := range vbLongLens {
+		for _, nf := range []int{4, 12} {
+			b := vbBaseRec(nf)
+			b.Name = vbRep("feature_", n)
+			emit(b)
+		}
+		b := vbBaseRec(3)
+		b.Chrom = vbRep("chrUn_", n)
+		emit(b)
+	}
 	max := vbMaxCases(g, 40000, 200000)
 	for i := 0; i < max && !g.Expired(); i++ {
 		emit(vbRandRec(g.Rand, 3+g.Rand.Intn(10), g.Rand.Intn(3) == 0))
@@ -639,6 +743,11 @@ func vbRunRoundtrip(in map[string]any) vrResult {
 			sig = "bed:dquote-in-text-field"
 		}
 	}
+	if sig == "generic" {
+		if ls := vbLongLineSig([]*BED{b}, func(l []*BED) bool { ok, _, _ := vbCheckRoundtrip(l[0]); return ok }); ls != "" {
+			sig = ls
+		}
+	}
 	return vrResult{Observed: obs, Expected: exp, Signature: sig}
 }
 
@@ -657,6 +766,20 @@ func vbGenFile(g *vrGen) {
 	for n := 3; n <= 12; n++ {
 		emit([]*BED{vbBaseRec(n)})
 		emit([]*BED{vbBaseRec(n), {N: n}, vbBaseRec(n)})
+	}
+	// long lines: a record with a Name of 4000..200000 bytes alone, twice, and
+	// between ordinary records (N = 4, 6 and 12); a long Chrom (N = 3)
+	for _, n := range vbLongLens {
+		for _, nf := range []int{4, 6, 12} {
+			long := vbBaseRec(nf)
+			long.Name = vbRep("feature_", n)
+			emit([]*BED{long})
+			emit([]*BED{vbBaseRec(nf), long, vbBaseRec(nf)})
+			emit([]*BED{long, long})
+		}
+		long := vbBaseRec(3)
+		long.Chrom = vbRep("chrUn_", n)
+		emit([]*BED{vbBaseRec(3), long, vbBaseRec(3)})
 	}
 	max := vbMaxCases(g, 30000, 150000)
 	for i := 0; i < max && !g.Expired(); i++ {
@@ -715,7 +838,238 @@ func vbRunFile(in map[string]any) vrResult {
 			sig = "bed:dquote-in-text-field"
 		}
 	}
+	if sig == "generic" {
+		if ls := vbLongLineSig(recs, func(l []*BED) bool { ok, _, _ := vbCheckFile(l); return ok }); ls != "" {
+			sig = ls
+		}
+	}
 	return vrResult{Observed: obs, Expected: exp, Signature: sig}
+}
+
+// ---------------------------------------------------------------------------
+// C04/marshal-list
+
+// vbCheckMarshalList evaluates the oracle on a list of in-domain records with
+// 3 <= N <= 12; the read-back part only if readBack (the records share one N).
+func vbCheckMarshalList(recs []*BED, readBack bool) (ok bool, obs, exp string) {
+	// 1. every MarshalText call first; the results are kept as returned (not
+	// copied, not touched between the calls).
+	kept := make([][]byte, len(recs))
+	for i, b := range recs {
+		var merr error
+		if p := vrCatch(func() { kept[i], merr = b.MarshalText() }); p != nil {
+			return false, fmt.Sprintf("record %d: MarshalText panics: %v", i, p), "no panic"
+		}
+		if merr != nil {
+			return false, fmt.Sprintf("record %d: MarshalText error: %v", i, merr), "nil error"
+		}
+	}
+	// 2. only now the reference bytes: Write of each record into a fresh buffer
+	// (all of them before the first comparison).
+	refs := make([][]byte, len(recs))
+	for i, b := range recs {
+		var buf bytes.Buffer
+		var werr error
+		if p := vrCatch(func() { werr = b.Write(&buf) }); p != nil {
+			return false, fmt.Sprintf("record %d: Write panics: %v", i, p), "no panic"
+		}
+		if werr != nil {
+			return false, fmt.Sprintf("record %d: Write error: %v", i, werr), "nil error"
+		}
+		refs[i] = buf.Bytes()
+	}
+	for i := range recs {
+		if !bytes.Equal(kept[i], refs[i]) {
+			return false, fmt.Sprintf("record %d of %d: the slice MarshalText returned holds %q after the later calls", i, len(recs), kept[i]),
+				fmt.Sprintf("the bytes of Write: %q (a MarshalText result is not changed by later MarshalText/Write calls)", refs[i])
+		}
+	}
+	want := make([]vbItem, len(recs))
+	for i, b := range recs {
+		want[i] = vbItem{B: vbRestrict(b, b.N)}
+	}
+	check := func(what string, data []byte) (bool, string, string) {
+		items, _, capped, p := vbCollect("Reader", bytes.NewReader(data), "", 0, len(data)+20)
+		exp := fmt.Sprintf("Reader(%q): %s", data, vbItemsDesc(want))
+		if p != nil {
+			return false, fmt.Sprintf("%s: Reader panics: %v", what, p), exp
+		}
+		if capped {
+			return false, what + ": Reader does not terminate", exp
+		}
+		if d := vbItemsDiff(items, want); d != "" {
+			return false, fmt.Sprintf("%s: %s; got %s", what, d, vbItemsDesc(items)), exp
+		}
+		return true, "", ""
+	}
+	// 3. the kept slices joined read back as the list.
+	if readBack {
+		if ok, obs, exp := check("joined MarshalText results", bytes.Join(kept, nil)); !ok {
+			return false, obs, exp
+		}
+	}
+	// 4. all records written one after another into one shared buffer.
+	var shared bytes.Buffer
+	for i, b := range recs {
+		var werr error
+		if p := vrCatch(func() { werr = b.Write(&shared) }); p != nil || werr != nil {
+			return false, fmt.Sprintf("record %d: Write to the shared buffer: panic %v, error %v", i, p, werr), "record written"
+		}
+	}
+	if !bytes.Equal(shared.Bytes(), bytes.Join(refs, nil)) {
+		return false, fmt.Sprintf("sequential Write calls into one buffer emitted %q", shared.Bytes()),
+			fmt.Sprintf("the concatenation of what each Write emits into a fresh buffer: %q", bytes.Join(refs, nil))
+	}
+	if readBack {
+		return check("shared buffer", shared.Bytes())
+	}
+	return true, "", ""
+}
+
+func vbRunMarshalList(in map[string]any) vrResult {
+	var recs []*BED
+	for _, e := range vrList(in["records"]) {
+		recs = append(recs, vbDecRec(e))
+	}
+	hasQ, sameN := false, true
+	for _, b := range recs {
+		if b.N < 3 || b.N > 12 || !vbInDomain(b) {
+			return vrResult{OK: true, Trivial: true}
+		}
+		sameN = sameN && b.N == recs[0].N // the statement covers files of records sharing one N
+		hasQ = hasQ || vbHasDquote(b)
+	}
+	ok, obs, exp := vbCheckMarshalList(recs, sameN)
+	if ok {
+		return vrResult{OK: true, Trivial: len(recs) < 2}
+	}
+	sig := "generic"
+	if hasQ {
+		dq := make([]*BED, len(recs))
+		for i, b := range recs {
+			dq[i] = vbDequote(b)
+		}
+		if ok2, _, _ := vbCheckMarshalList(dq, sameN); ok2 {
+			sig = "bed:dquote-in-text-field"
+		}
+	}
+	return vrResult{Observed: obs, Expected: exp, Signature: sig}
+}
+
+// vbWrittenLen: length of the record's line in the independent rendering.
+func vbWrittenLen(b *BED) int { return len(strings.Join(vbRenderFields(b), "\t")) + 1 }
+
+// vbMarshalPool: in-domain records with n fields, of pairwise different written
+// lengths, whose lines differ from the first byte on (Chrom starts with a
+// different letter).
+func vbMarshalPool(n int) []*BED {
+	var pool []*BED
+	add := func(f func(b *BED)) {
+		b := vbBaseRec(n)
+		f(b)
+		b.Chrom = string(rune('a'+len(pool))) + b.Chrom
+		pool = append(pool, b)
+	}
+	add(func(b *BED) {})
+	add(func(b *BED) { *b = BED{N: n} })
+	add(func(b *BED) { b.Chrom, b.Name, b.Strand = "", "", "" })
+	add(func(b *BED) { b.Chrom, b.Name = strings.Repeat("chr ", 40), strings.Repeat("n,\x80", 50) })
+	add(func(b *BED) {
+		b.ChromStart, b.ChromEnd, b.Score, b.ThickStart, b.ThickEnd = math.MinInt64, math.MaxInt64, -1, math.MinInt64, 1<<32
+	})
+	add(func(b *BED) {
+		b.ChromStart, b.ChromEnd, b.Score, b.ThickStart, b.ThickEnd, b.ItemRGB = 0, 0, 0, 0, 0, [3]byte{}
+	})
+	add(func(b *BED) {
+		if n == 12 || n <= 9 {
+			b.BlockCount, b.BlockSizes, b.BlockStarts = 0, nil, nil
+		}
+		b.Strand = "."
+	})
+	add(func(b *BED) {
+		if n == 12 || n <= 9 {
+			b.BlockCount, b.BlockSizes, b.BlockStarts = 3, []int{1, -2, math.MaxInt64}, []int{0, math.MinInt64, 7}
+		}
+		b.Strand = "-"
+	})
+	seen := map[int]bool{}
+	for _, b := range pool {
+		for seen[vbWrittenLen(b)] {
+			b.Chrom += "_"
+		}
+		seen[vbWrittenLen(b)] = true
+	}
+	return pool
+}
+
+func vbGenMarshalList(g *vrGen) {
+	complete := true
+	emit := func(recs []*BED) bool {
+		if g.Expired() {
+			complete = false
+			return false
+		}
+		l := make([]any, len(recs))
+		for i, b := range recs {
+			l[i] = vbEncRec(b)
+		}
+		g.Case(map[string]any{"records": l})
+		return true
+	}
+	ok := true
+	for n := 3; n <= 12; n++ {
+		pool := vbMarshalPool(n)
+		for _, a := range pool {
+			for _, b := range pool {
+				ok = ok && emit([]*BED{a, b})
+			}
+		}
+	}
+	for n1 := 3; n1 <= 12; n1++ {
+		for n2 := 3; n2 <= 12; n2++ {
+			if n1 != n2 {
+				a, b := vbBaseRec(n1), vbBaseRec(n2)
+				a.Chrom, b.Chrom = "a"+a.Chrom, "b"+b.Chrom
+				ok = ok && emit([]*BED{a, b})
+			}
+		}
+	}
+	up := vbMarshalPool(12)
+	sort.SliceStable(up, func(i, j int) bool { return vbWrittenLen(up[i]) < vbWrittenLen(up[j]) })
+	down := make([]*BED, len(up))
+	for i, b := range up {
+		down[len(up)-1-i] = b
+	}
+	for _, l := range [][]*BED{up, down} {
+		for i := 0; i+6 <= len(l); i++ {
+			ok = ok && emit(l[i:i+6])
+		}
+	}
+	g.Exhaustive(complete && ok)
+	r := g.Rand
+	for !g.Expired() {
+		quote := r.Intn(4) == 0
+		mixed := r.Intn(4) == 0
+		n := 3 + r.Intn(10)
+		l := make([]*BED, 2+r.Intn(5))
+		sizes := map[int]bool{}
+		for i := range l {
+			for try := 0; ; try++ {
+				if mixed {
+					n = 3 + r.Intn(10)
+				}
+				l[i] = vbRandRec(r, n, quote)
+				if r.Intn(2) == 0 { // marker byte in front of the line
+					l[i].Chrom = string(rune('a'+i)) + l[i].Chrom
+				}
+				if sz := vbWrittenLen(l[i]); !sizes[sz] || try >= 20 {
+					sizes[sz] = true
+					break
+				}
+			}
+		}
+		emit(l)
+	}
 }
 
 // ---------------------------------------------------------------------------
